@@ -505,6 +505,8 @@ LEVEL_TEXT = ("Exploration by runtime observation: for generated documents, cont
               "rebuild from records, JSON round trip) and single content-changing edits (value, value kind, formal argument, identifier, "
               "identifier<->none, record, bundle, bundle member, record kind) are built through the public API; ==, != and hash are observed "
               "in both argument orders on documents, bundles and record pairs and compared with content equivalence computed from strict "
-              "snapshots; transitivity on triples; prov-compare's exit status in the thorough tier.")
+              "snapshots; transitivity on triples; route twins (the same program with every record stated through another entry point of the "
+              "API: convenience method / factory / new_record, alias, keyword arguments, dict-form attributes, a formal argument stated as an "
+              "attribute) must be content-equivalent and ==; prov-compare's exit status in the thorough tier.")
 LEVEL_NOTE = "Trusted: the snapshot-level content-equivalence relation (Python value equality folded in as the statement says); bounded documents."
 DESIGN_REF = "DESIGN.md section 6, C04"
